@@ -6,6 +6,11 @@
 (* The delimiter is classified here (TCDelimClass / TCDelimGroup of TextCodec.tla): *)
 (* a record whose delimiter is outside the quantifier of the statement (inherently  *)
 (* ambiguous, TCAmbiguousCodes, or not a delimiter of the universe) demands nothing.*)
+(* A *scale record* (a table too big to write out: field "parts" present) carries   *)
+(*   {"id", "dcode", "axis", "nw", "no", "hw", "ho", "err",                          *)
+(*    "parts": [{"t": <small table>, "obs": <observation restricted to it>}, ...]}   *)
+(* and is judged through the split laws of TextCodec.tla: the count clause of the    *)
+(* axis ("0:<clause>") and the clauses of every distinct part ("<k>:<clause>").      *)
 (* The table and the observed rows are abstracted by the same byte -> token map, so *)
 (* the judgement is token equality.  A rejected record is printed with the failing  *)
 (* clauses ("<k>:<clause>" for observation k) and with the structural class of the  *)
@@ -25,14 +30,18 @@ PickTrace == blk > 0 /\ tid = 0
              /\ \E t \in ((blk - 1) * BlockSize + 1)..VMin2(blk * BlockSize, NT) : tid' = t /\ blk' = blk
 Next == PickBlock \/ PickTrace
 
+IsScale(r) == "parts" \in DOMAIN r
 FailingRec(r) ==
-    UNION {{ToString(k) \o ":" \o c : c \in TCFailing(r.t, r.obs[k])} : k \in DOMAIN r.obs}
+    IF IsScale(r)
+    THEN {"0:" \o c : c \in TCScaleFrameFailing(r)} \cup
+         UNION {{ToString(k) \o ":" \o c : c \in TCFailing(r.parts[k].t, r.parts[k].obs)} : k \in DOMAIN r.parts}
+    ELSE UNION {{ToString(k) \o ":" \o c : c \in TCFailing(r.t, r.obs[k])} : k \in DOMAIN r.obs}
 
 Check == tid > 0 =>
     LET r == Traces[tid]
     IN r.dcode \notin TCQuantDelims \/
        LET f  == FailingRec(r)
            dc == TCDelimClass(r.dcode)
-       IN f = {} \/ PrintT(<<"REJECT", ToJson([id |-> r.id, failing |-> f \cup {"hz:" \o TCHazard(r.t, dc),
+       IN f = {} \/ PrintT(<<"REJECT", ToJson([id |-> r.id, failing |-> f \cup {"hz:" \o (IF IsScale(r) THEN "none" ELSE TCHazard(r.t, dc)),
                                                                                 "dl:" \o dc \o "/" \o TCDelimGroup(r.dcode)}])>>)
 =============================================================================
